@@ -37,7 +37,7 @@ def plan(tier, seed):
         for i in range(n):
             topo = 1 + (i % 4)
             threads = rng.choice([2, 3, 4, 8, 12, 16])
-            records = rng.choice([200, 400, 800]) if tag != "plain" else rng.choice([200, 500, 1000, 2000])
+            records = rng.choice([200, 400, 800]) if tag not in ("plain", "cplain") else rng.choice([200, 500, 1000, 2000])
             maxlen = rng.choice([16, 256, 4096])
             if i % 3 == 0:
                 # records longer than a page / a typical stdio buffer (block-wise writers show here)
@@ -51,15 +51,18 @@ def plan(tier, seed):
             topo = [4, 1, 4, 2, 4, 3][i % 6]
             threads = rng.choice([2, 3, 4])
             per_round = rng.choice([1, 2, 3])
-            records = per_round * (4000 if tag == "plain" else 1200)
+            records = per_round * (4000 if tag in ("plain", "cplain") else 1200)
             runs.append((tag, topo, threads, records, rng.choice([8, 16, 24]), rng.randrange(1, 10 ** 9),
                          rng.choice([0, 0, 20]), per_round))
 
     if tier == "quick":
         add("gtsan", 8)
         add("plain", 24)
+        add("cplain", 8)       # clang, -O2: another order of evaluation, another code layout
+        add("ctsan", 4)
         add_rounds("plain", 12)
         add_rounds("gtsan", 2)
+        add_rounds("cplain", 4)
     else:
         add("gtsan", 60)
         add("ctsan", 32)
